@@ -473,3 +473,119 @@ Example C05_tr_cutword_runs :
   CLite.callf GenCFuncs.cprog 100 1 GenCFuncs.F_cutword [CLite.VPtr G 0%Z; CLite.VPtr (G + 1) 0%Z]
     (GenCFuncs.cglobals ++ [CLite.cstr_block [195; 169]%Z; repeat CLite.VUndef excap]) = CLite.Err CLite.ECtype.
 Proof. vm_compute. repeat split; reflexivity. Qed.
+
+(* ======================================================================================== *)
+(* fifth part (TrTerm.v): the input queue of term.c as C TEXT.  tools/c2clite.py translates term_push,
+   term_cmd and term_read and the statics  char ibuf[IBUFSZ]; int ibuf_pos, ibuf_cnt; char icmd[ICMDSZ];
+   int icmd_pos;  (global blocks of GenCFuncs.v: ibuf and icmd have exactly sizeof cells, any access outside
+   a block is the error EOob).  The theorems below are about those terms: they tie the counter model
+   t_step of CapDefs.v, about which C05_term_push_bounded / C05_term_push_clipped / C05_icmd_bounded speak, to
+   the text by proof, and they state the memory safety of the memmove / memcpy / stores themselves.
+   TrTerm.term_at m pos cnt ib ip ic: in memory m the statics hold ibuf_pos = pos, ibuf_cnt = cnt, the cells ib,
+   icmd_pos = ip, the cells ic, and 0 <= pos <= cnt <= IBUFSZ, 0 <= ip <= ICMDSZ (the invariant of the model). *)
+From NV Require TrTerm.
+
+(* term_push(s, n) for EVERY memory satisfying the invariant (any contents of ibuf) and every source of n >= 0
+   cells at offset os of any other block: the call returns a value -- the memmove stayed inside ibuf, the memcpy
+   inside ibuf and inside the n cells of s, no int overflowed --; the invariant holds again with
+   ibuf_cnt + min(n, IBUFSZ - ibuf_cnt) and the same ibuf_pos; the read part ibuf[0 .. pos) and the cells behind the
+   queue are untouched, no other block of the memory changed; and the counters moved as the model's TPush step *)
+Theorem C05_tr_term_push : forall (m : CLite.mem) pos cnt ib ip ic bs os (sblk : CLite.block) n d fuel,
+  TrTerm.term_at m pos cnt ib ip ic -> nth_error m bs = Some sblk -> bs <> GenCFuncs.G_ibuf ->
+  (0 <= n <= 2147483647)%Z -> (0 <= os)%Z -> (os + n <= Z.of_nat (length sblk))%Z ->
+  let k := Z.min n (IBUFSZ - cnt) in
+  exists m' ib',
+    CLite.callf GenCFuncs.cprog fuel (S d) GenCFuncs.F_term_push [CLite.VPtr bs os; CLite.VInt n] m = CLite.Ok (CLite.VUndef, m') /\
+    TrTerm.term_at m' pos (cnt + k)%Z ib' ip ic /\
+    firstn (Z.to_nat pos) ib' = firstn (Z.to_nat pos) ib /\
+    skipn (Z.to_nat (cnt + k)) ib' = skipn (Z.to_nat (cnt + k)) ib /\
+    length m' = length m /\
+    (forall b, b <> GenCFuncs.G_ibuf -> b <> GenCFuncs.G_ibuf_cnt -> nth_error m' b = nth_error m b) /\
+    t_step (mkT pos cnt ip) (TPush n) = Ok (mkT pos (cnt + k)%Z ip).
+Proof.
+  intros m pos cnt ib ip ic bs os sblk n d fuel H1 H2 H3 H4 H5 H6 k.
+  destruct (TrTerm.term_push_refines m pos cnt ib ip ic bs os sblk n d fuel [] H1 H2 H3 H4 H5 H6)
+    as (m' & ib' & A & B & _ & _ & E & F & G & H & I). exists m', ib'.
+  split; [exact A|]. split; [exact B|]. split; [exact E|]. split; [exact F|]. split; [exact G|]. split; [exact H|exact I].
+Qed.
+Print Assumptions C05_tr_term_push.
+
+(* term_cmd(&n), n any int cell outside the statics: *n = icmd_pos, icmd_pos = 0, the pointer returned is icmd *)
+Theorem C05_tr_term_cmd : forall (m : CLite.mem) pos cnt ib ip ic bn on (nblk : CLite.block) d fuel,
+  TrTerm.term_at m pos cnt ib ip ic -> nth_error m bn = Some nblk ->
+  bn <> GenCFuncs.G_ibuf -> bn <> GenCFuncs.G_ibuf_pos -> bn <> GenCFuncs.G_ibuf_cnt -> bn <> GenCFuncs.G_icmd -> bn <> GenCFuncs.G_icmd_pos ->
+  (0 <= on < Z.of_nat (length nblk))%Z ->
+  exists m',
+    CLite.callf GenCFuncs.cprog fuel (S d) GenCFuncs.F_term_cmd [CLite.VPtr bn on] m = CLite.Ok (CLite.VPtr GenCFuncs.G_icmd 0%Z, m') /\
+    TrTerm.term_at m' pos cnt ib 0%Z ic /\ CLite.load m' bn on = CLite.Ok (CLite.VInt ip) /\
+    t_step (mkT pos cnt ip) TCmd = Ok (mkT pos cnt 0%Z).
+Proof.
+  intros m pos cnt ib ip ic bn on nblk d fuel H1 H2 N1 N2 N3 N4 N5 H3.
+  destruct (TrTerm.term_cmd_refines m pos cnt ib ip ic bn on nblk d fuel [] H1 H2 N1 N2 N3 N4 N5 H3) as (m' & A & B & C & _ & E).
+  exists m'. split; [exact A|]. split; [exact B|]. split; [exact C|exact E].
+Qed.
+Print Assumptions C05_tr_term_cmd.
+
+(* term_read() while a key is queued (ibuf_pos < ibuf_cnt; the other path calls poll() and read(), which are outside
+   the translated subset): the load ibuf[ibuf_pos++] is inside ibuf, the store icmd[icmd_pos++] happens only while
+   icmd_pos < ICMDSZ and is inside icmd; the invariant holds again; the counters moved as the model's TRead step
+   (whatever the refill would have been) *)
+Theorem C05_tr_term_read_queued : forall (m : CLite.mem) pos cnt ib ip ic z d fuel refill,
+  TrTerm.term_at m pos cnt ib ip ic -> (pos < cnt)%Z -> nth_error ib (Z.to_nat pos) = Some (CLite.VInt z) -> (-128 <= z <= 127)%Z ->
+  let ip' := if (ip <? ICMDSZ)%Z then (ip + 1)%Z else ip in
+  let ic' := if (ip <? ICMDSZ)%Z then CLiteProps.upd ic (Z.to_nat ip) (CLite.VInt z) else ic in
+  exists m',
+    CLite.callf GenCFuncs.cprog fuel (S d) GenCFuncs.F_term_read [] m = CLite.Ok (CLite.VInt (z mod 256), m') /\
+    TrTerm.term_at m' (pos + 1)%Z cnt ib ip' ic' /\
+    t_step (mkT pos cnt ip) (TRead refill) = Ok (mkT (pos + 1)%Z cnt ip').
+Proof.
+  intros m pos cnt ib ip ic z d fuel refill H1 H2 H3 H4 ip' ic'.
+  destruct (TrTerm.term_read_refines m pos cnt ib ip ic z d fuel [] refill H1 H2 H3 H4) as (m' & A & B & _ & D).
+  exists m'. split; [exact A|]. split; [exact B|exact D].
+Qed.
+Print Assumptions C05_tr_term_read_queued.
+
+(* non-vacuity: the zero-initialised statics satisfy the invariant, and the translated functions RUN from there:
+   a push of 5000 cells is clipped to IBUFSZ, a read takes the first key, a push into the full buffer adds nothing,
+   a push "xy" after another start lands in front of "abc"; the counters in memory are those of the model run *)
+Example C05_tr_term_runs :
+  let G := length GenCFuncs.cglobals in
+  let m0 := GenCFuncs.cglobals ++ [repeat (CLite.VInt 65%Z) 5000; map CLite.VInt [97; 98; 99]%Z; map CLite.VInt [120; 121]%Z; [CLite.VUndef]] in
+  let run f args m := CLite.callf GenCFuncs.cprog 10 1 f args m in
+  let ctrs m := (TrTerm.peek1 m GenCFuncs.G_ibuf_pos, TrTerm.peek1 m GenCFuncs.G_ibuf_cnt, TrTerm.peek1 m GenCFuncs.G_icmd_pos) in
+  let model ops := match t_run t_init ops with Ok t => (Some (ibuf_pos t), Some (ibuf_cnt t), Some (icmd_pos t)) | _ => (None, None, None) end in
+  TrTerm.term_at m0 0%Z 0%Z GenCFuncs.gb_ibuf 0%Z GenCFuncs.gb_icmd /\
+  match run GenCFuncs.F_term_push [CLite.VPtr G 0%Z; CLite.VInt 5000%Z] m0 with
+  | CLite.Ok (_, m1) =>
+    ctrs m1 = (Some 0%Z, Some IBUFSZ, Some 0%Z) /\ ctrs m1 = model [TPush 5000] /\
+    match run GenCFuncs.F_term_read [] m1 with
+    | CLite.Ok (c, m2) =>
+      c = CLite.VInt 65%Z /\ ctrs m2 = model [TPush 5000; TRead None] /\
+      match run GenCFuncs.F_term_push [CLite.VPtr (G + 1) 0%Z; CLite.VInt 3%Z] m2 with
+      | CLite.Ok (_, m3) =>
+        ctrs m3 = (Some 1%Z, Some IBUFSZ, Some 1%Z) /\ ctrs m3 = model [TPush 5000; TRead None; TPush 3] /\
+        TrTerm.peek m3 GenCFuncs.G_ibuf 5000 = repeat (CLite.VInt 65%Z) (Z.to_nat IBUFSZ) /\
+        match run GenCFuncs.F_term_cmd [CLite.VPtr (G + 3) 0%Z] m3 with
+        | CLite.Ok (_, m4) => ctrs m4 = model [TPush 5000; TRead None; TPush 3; TCmd] /\ TrTerm.peek m4 (G + 3) 1 = [CLite.VInt 1%Z]
+        | _ => False end
+      | _ => False end
+    | _ => False end
+  | _ => False end /\
+  match run GenCFuncs.F_term_push [CLite.VPtr (G + 1) 0%Z; CLite.VInt 3%Z] m0 with
+  | CLite.Ok (_, m1) =>
+    match run GenCFuncs.F_term_push [CLite.VPtr (G + 2) 0%Z; CLite.VInt 2%Z] m1 with
+    | CLite.Ok (_, m2) => TrTerm.peek m2 GenCFuncs.G_ibuf 6 = map CLite.VInt [120; 121; 97; 98; 99; 0]%Z /\ ctrs m2 = model [TPush 3; TPush 2]
+    | _ => False end
+  | _ => False end.
+Proof. cbv zeta. split; [exact (TrTerm.term_at_start _)|]. vm_compute. repeat split; reflexivity. Qed.
+
+(* the translated text has teeth: the checked semantics stops with EOob when term_push is handed a count larger than
+   its source (the memcpy would read past s), and when the statics do not satisfy the invariant (ibuf_cnt above
+   sizeof(ibuf): the clip turns into a huge unsigned count) *)
+Example C05_tr_term_push_oob :
+  let G := length GenCFuncs.cglobals in
+  CLite.callf GenCFuncs.cprog 10 1 GenCFuncs.F_term_push [CLite.VPtr G 0%Z; CLite.VInt 4%Z]
+    (GenCFuncs.cglobals ++ [map CLite.VInt [97; 98; 99]%Z]) = CLite.Err CLite.EOob /\
+  CLite.callf GenCFuncs.cprog 10 1 GenCFuncs.F_term_push [CLite.VPtr G 0%Z; CLite.VInt 3%Z]
+    (CLiteProps.upd GenCFuncs.cglobals GenCFuncs.G_ibuf_cnt [CLite.VInt (IBUFSZ + 1)%Z] ++ [map CLite.VInt [97; 98; 99]%Z]) = CLite.Err CLite.EOob.
+Proof. cbv zeta. split; vm_compute; reflexivity. Qed.
